@@ -151,7 +151,7 @@ func cmdVerify(pat string, to int, dump, verbose bool) int {
 	// group contracts by module
 	byMod := map[string][]*Contract{}
 	for k, c := range db.Contracts {
-		if c.Extern || (c.Trusted != "" && len(c.Checks) == 0) || !strings.Contains(k, pat) {
+		if c.Extern || (c.Trusted != "" && len(c.Checks) == 0 && !c.hasStructural()) || !strings.Contains(k, pat) {
 			continue
 		}
 		m := moduleOf(c.Pkg)
